@@ -848,7 +848,7 @@ func (multi *MultiEpoch) processSlotTransactions(
 					return status.Errorf(codes.Internal, "Failed to parse transaction meta: %v", err)
 				}
 
-				if !filterOutTxn(*txn, meta) {
+				if filterOutTxn(*txn, meta) { // despite its name the closure returns true for a transaction that passes the filter
 
 					txResp := new(old_faithful_grpc.TransactionResponse)
 					txResp.Transaction = new(old_faithful_grpc.Transaction)
@@ -962,7 +962,7 @@ func (multi *MultiEpoch) processSlotTransactions(
 							return
 						}
 
-						if !filterOutTxn(tx, meta) {
+						if filterOutTxn(tx, meta) { // see above: true = passes the filter
 							txResp := new(old_faithful_grpc.TransactionResponse)
 							txResp.Transaction = new(old_faithful_grpc.Transaction)
 							{
